@@ -173,6 +173,16 @@ CLAIMS = {
              "accessibility filter.",
         technique="VCs (pyvc mode F) on check_scope with object references; structural order obligations; generated-program definition oracle as bounded stand-in",
         design="3/C05"),
+    "C07": dict(
+        text="Detector layer: Scope.check_use (VCs with a fold specification over the scope's USE/IMPORT statements: IMPORT "
+             "outside an interface body, unknown module, USE after IMPLICIT fire exactly on their fact, on that line, with that "
+             "severity), the line-length part of FortranFile.check_file, mark_contains/parse_contains/parse_implicit and the "
+             "check_valid_parent methods. Silence on valid programs and the resolution-dependent detectors are decided only on "
+             "generated programs with one seeded defect per class and position (bounded stand-in, not proof).",
+        note="'standard-conforming program' has no specification short of a model of Fortran; the generated-program oracle covers "
+             "19 defect classes at random applicable positions of three-file programs and is labelled bounded.",
+        technique="VCs (pyvc mode F) with fold specifications on the detector functions; generated valid/defective programs as bounded stand-in",
+        design="3/C07"),
     "C12": dict(
         text="Filter layer: the prefix filter of serve_autocomplete.get_candidates (VCs on a mechanical slice of the real "
              "nested function, loop invariant with fold specification) keeps exactly the candidates whose renamed or own "
